@@ -338,6 +338,42 @@ func c19Equiv(c *Ctx, asm, pure *load.Program) {
 		f := an.Facts
 		c.R.Decide(!f.IdxFlowsToAddress && len(f.NonConstAddress) == 0, "C19-5", "idx-not-in-address/"+sp.name, pos, fmt.Sprintf("all %d loads are at tbl + constant", len(f.Loads)), fmt.Sprintf("idx influences a memory address (lines %v)", f.NonConstAddress))
 		c.R.Decide(!f.IdxFlowsToFlags, "C19-5", "idx-not-in-branch/"+sp.name, pos, fmt.Sprintf("loop bound is constant (%d iterations)", f.LoopIterations+1), "idx influences a conditional jump")
+		// memory safety: every load lies inside the object its base parameter points to (the portable twin indexes a Go
+		// array, which is bounds-checked; a read past the table may fault or read foreign memory)
+		{
+			size := map[string]int64{}
+			for _, p := range goFn.Params {
+				if pt, ok := p.Type().Underlying().(*types.Pointer); ok {
+					size[p.Name()] = sizes.Sizeof(pt.Elem())
+				}
+			}
+			var bad []string
+			n := 0
+			for _, l := range f.Loads {
+				sz, known := size[l.Base]
+				if !known {
+					continue
+				}
+				n++
+				if l.Off < 0 || l.Off+int64(l.Width) > sz {
+					bad = append(bad, fmt.Sprintf("line %d: %d bytes at %s+%d (object has %d bytes)", l.Line, l.Width, l.Base, l.Off, sz))
+				}
+			}
+			for _, st := range f.Stores {
+				sz, known := size[st.Base]
+				if !known {
+					continue
+				}
+				n++
+				if st.Off < 0 || st.Off+int64(st.Width) > sz {
+					bad = append(bad, fmt.Sprintf("line %d: store of %d bytes at %s+%d (object has %d bytes)", st.Line, st.Width, st.Base, st.Off, sz))
+				}
+			}
+			if len(bad) > 6 {
+				bad = append(bad[:6], "...")
+			}
+			c.R.Decide(len(bad) == 0 && n > 0, "C19-5", "in-bounds/"+sp.name, pos, fmt.Sprintf("all %d memory accesses through a pointer parameter stay inside the pointed-to object", n), "out-of-bounds access: "+strings.Join(bad, "; "))
+		}
 		// alignment: Go guarantees only the natural (8-byte) alignment of the table / output types, so an
 		// instruction that faults on a memory operand that is not 16-byte aligned behaves differently from the Go twin
 		{
